@@ -81,12 +81,12 @@ extern "C" void c01_inverse_latitude()
   G g = geodetic();
   Eigen::Vector3d P = c.toECEF(makeGeodeticCoordinates(g.lat, g.lon, g.h));
   forward_lemmas(c, g, P);
+  if (vf_param("mode") == 0) {vf_havoc_is(0, g.lat);}
   GeodeticCoordinates r = c.toWGS84(P);
   if (vf_symbolic()) {
     double prev = vf_havoc(0);
     if (vf_param("mode") == 0) {
-      vf_assume(vf_angle_eq(prev, g.lat));
-      vf_check(vf_angle_eq(r.latitude, g.lat), "true-latitude-is-a-fixed-point-of-the-iteration");
+      vf_lemma(vf_angle_eq(r.latitude, g.lat), "true-latitude-is-a-fixed-point-of-the-iteration");
       vf_check(vf_eq(r.altitude, g.h), "height-formula-returns-h-at-the-true-latitude");
     } else {
       vf_assume(prev == r.latitude);
